@@ -84,6 +84,12 @@ impl Environment {
     pub fn insert(&self, key: String, value: Value) {
         match &self.local {
             LocalBindings::Owned(map) => {
+                #[cfg(feature = "verif-hooks")]
+                crate::verif_hooks::on_env_insert(
+                    self as *const Environment as usize,
+                    &key,
+                    map.borrow().contains_key(&key),
+                );
                 map.borrow_mut().insert(key, value);
             }
             LocalBindings::Shared(_) => {
